@@ -164,43 +164,63 @@ def run(chk):
         fin = names.calls_to(hm, "Mac::finalize")
         chk.ob("R2 HMAC", "R2|hmac_sha256|instance", okt and bool(fin), where(hm), "MAC instance: %s" % inst[:140])
         chk.ob("R2 HMAC", "R2|hmac_sha256|key-and-data-roles", okk and okd, where(hm), "new_from_slice(key = param 1): %s ; update(data = param 2): %s" % (okk, okd))
-    ch = fn(p, "hmac_secret::calculate_hmac_secret")
-    if chk.require("R2 HMAC", "R2|calculate_hmac_secret", ch, "passkey_authenticator", "calculate_hmac_secret not found"):
-        chk.touched(ch)
-        ok_uv = ok_nouv = ok_err = data_ok = False
-        for o in S.local_outcomes(ch):
-            uvc = [l for t, l, f, w in o.conds if t == ("param", 4)]
-            if not uvc:
+    from .common import hmac_functions, param_roles
+    hfs = hmac_functions(p)
+    is_hmac = lambda x: is_call(x, "crypto::hmac_sha256") or is_call(x, "hmac_sha256")
+    if chk.require("R2 HMAC", "R2|hmac-functions", len(hfs) >= 1, "passkey_authenticator", "no function of the authenticator calls hmac_sha256"):
+        for ch in hfs:
+            chk.touched(ch)
+            nm = ch.path.rsplit("::", 1)[-1]
+            ro = param_roles(ch, creds="StoredHmacSecret", salts="HmacSecretSaltOrOutput", uv="bool")
+            if not chk.require("R2 HMAC", "R2|%s|roles" % nm, None not in ro.values(), where(ch), "parameters not identified by type (stored secrets, salts, uv flag): %s" % ro):
                 continue
-            if o.variant[:1] == ("Ok",):
-                h = find(o.value, lambda x: is_call(x, "crypto::hmac_sha256") or is_call(x, "hmac_sha256"))
-                if h is None:
-                    continue
-                key, data = h[2][0], h[2][1]
-                d_ok = is_call(data, "HmacSecretSaltOrOutput::first") and data[2][0] == ("param", 2)
-                if flow.lab_true(uvc[0]):
-                    ok_uv = key == ("field", ("param", 1), "cred_with_uv")
-                    data_ok = d_ok
+            P_c, P_s, P_uv = ("param", ro["creds"]), ("param", ro["salts"]), ("param", ro["uv"])
+            with_uv, without_uv = ("field", P_c, "cred_with_uv"), ("field", P_c, "cred_without_uv")
+            # the function's table in normal form (closures applied; callee bodies not expanded)
+            rws = normal.rows(S, ch, N, expand=False, deep=True)
+            bad_key, bad_data, n_uv, n_nouv, n_err, n_calls = [], [], 0, 0, 0, 0
+            for o in rws:
+                uvc = [l for t, l, f, w in o.conds if t == P_uv]
+                hs = [x for x in sub(o.value) if is_hmac(x)]
+                if o.variant[:1] == ("Ok",):
+                    if not hs:
+                        bad_data.append("an Ok row carries no HMAC output")
+                        continue
+                    if not uvc:
+                        bad_key.append("an HMAC output is produced without testing the uv flag")
+                        continue
+                    uv_true = flow.lab_true(uvc[0])
+                    if uv_true:
+                        n_uv += 1
+                    else:
+                        n_nouv += 1
+                        # the non-gated secret is present on this row
+                        if not any(flow.asserts_ok(t, l, lambda y: y == without_uv) for t, l, f, w in o.conds):
+                            bad_key.append("¬uv row without the presence test of cred_without_uv")
+                    for h in hs:
+                        n_calls += 1
+                        key, data = flow.strip_sites(h[2][0]), flow.strip_sites(h[2][1])
+                        exp = with_uv if uv_true else ("payload", without_uv)
+                        if N.norm(key) != exp and key != exp:
+                            bad_key.append("uv=%s row keyed with %s" % (uv_true, flow.term_str(key)[:80]))
+                        first = is_call(data, "HmacSecretSaltOrOutput::first") and data[2][0] == P_s
+                        second = isinstance(data, tuple) and data[:1] == ("payload",) and is_call(data[1], "HmacSecretSaltOrOutput::second") and data[1][2][0] == P_s
+                        if not (first or second):
+                            bad_data.append("HMAC data %s" % flow.term_str(data)[:80])
+                    # first output from the first salt
+                    nw = find(o.value, lambda x: is_call(x, "HmacSecretSaltOrOutput::new"))
+                    if nw is None or not (is_hmac(nw[2][0]) and is_call(nw[2][0][2][1], "HmacSecretSaltOrOutput::first")):
+                        bad_data.append("first output is not the HMAC of the first salt")
+                    elif has(nw[2][1], is_hmac) and not has(nw[2][1], lambda x: is_call(x, "HmacSecretSaltOrOutput::second")):
+                        bad_data.append("second output is not the HMAC of the second salt")
                 else:
-                    ok_nouv = key[0] == "payload" and has(key, lambda x: x == ("field", ("param", 1), "cred_without_uv")) and not has(key, lambda x: x == ("field", ("param", 1), "cred_with_uv"))
-                    data_ok = data_ok and d_ok
-                # the second output uses the same key
-                for c in [x for x in sub(o.value) if isinstance(x, tuple) and len(x) == 3 and x[0] == "closure"]:
-                    r = closure_ret(p, c)
-                    if r is not None:
-                        h2 = find(r, lambda x: is_call(x, "crypto::hmac_sha256") or is_call(x, "hmac_sha256"))
-                        if h2 is None:
-                            for c2 in [x for x in sub(r) if isinstance(x, tuple) and len(x) == 3 and x[0] == "closure"]:
-                                r2 = closure_ret(p, c2)
-                                h2 = h2 or (find(r2, lambda x: is_call(x, "crypto::hmac_sha256") or is_call(x, "hmac_sha256")) if r2 else None)
-                        if h2 is not None and flow.strip_sites(h2[2][0]) != flow.strip_sites(key):
-                            data_ok = False
-            else:
-                if flow.lab_false(uvc[0]) and any(has(t, lambda x: x == ("field", ("param", 1), "cred_without_uv")) and l == ("in", "1") for t, l, f, w in o.conds):
-                    ok_err = True
-        chk.ob("R2 HMAC", "R2|calculate|uv-gated-secret-iff-uv", ok_uv and ok_nouv, where(ch), "uv → cred_with_uv: %s ; ¬uv → cred_without_uv only: %s" % (ok_uv, ok_nouv))
-        chk.ob("R2 HMAC", "R2|calculate|no-secret-is-error", ok_err, where(ch), "¬uv with no non-gated secret → Err: %s" % ok_err)
-        chk.ob("R2 HMAC", "R2|calculate|data-are-the-salts", data_ok, where(ch), "HMAC data = salts.first()/second(), both outputs keyed alike: %s" % data_ok)
+                    if uvc and flow.lab_false(uvc[0]) and any(flow.asserts_fail(t, l, lambda y: y == without_uv) for t, l, f, w in o.conds):
+                        n_err += 1
+                    else:
+                        bad_key.append("an error row other than ¬uv ∧ no non-gated secret")
+            chk.ob("R2 HMAC", "R2|%s|uv-gated-secret-iff-uv" % nm, not bad_key and n_uv > 0 and n_nouv > 0, where(ch), bad_key[0] if bad_key else "%d rows with uv keyed by cred_with_uv, %d rows without uv keyed by cred_without_uv; %d HMAC calls" % (n_uv, n_nouv, n_calls))
+            chk.ob("R2 HMAC", "R2|%s|no-secret-is-error" % nm, n_err > 0, where(ch), "¬uv with no non-gated secret → Err: %d rows" % n_err)
+            chk.ob("R2 HMAC", "R2|%s|data-are-the-salts" % nm, not bad_data, where(ch), bad_data[0] if bad_data else "HMAC data = salts.first() / salts.second(), first output from the first salt")
 
     # ---------------- R3
     mc, ga = ceremony(p, "make_credential"), ceremony(p, "get_assertion")
@@ -218,10 +238,23 @@ def run(chk):
                 ok = is_call(uv, "Flags::contains") and uv[2][0][0] == "payload" and has(uv[2][0], lambda x: is_call(x, "Authenticator::check_user")) and uv[2][1][0] == "const" and str(uv[2][1][1]).endswith("Flags::UV")
             chk.ob("R3 uv argument", "R3|%s|uv" % callee.split("::")[1], ok, where(co, cs[0][0]), "uv argument = %s (%s verification)" % (flow.term_str(uv)[:160], exp))
     # uv handed down unchanged
-    for outer, inner, ai, pi in (("make_extensions", "Authenticator::make_prf", 3, 3), ("get_extensions", "Authenticator::get_prf", 4, 4), ("make_prf", "hmac_secret::calculate_hmac_secret", 3, 4), ("get_prf", "hmac_secret::calculate_hmac_secret", 3, 5)):
+    chain = [("make_extensions", "Authenticator::make_prf", p.method(AUTH, "make_prf")), ("get_extensions", "Authenticator::get_prf", p.method(AUTH, "get_prf"))]
+    for hf in hfs:
+        # callers of the HMAC function among the PRF entry points
+        for outer in ("make_prf", "get_prf"):
+            ob_ = p.method(AUTH, outer)
+            if ob_ is not None and ob_ is not hf and any(names.call_is(t, hf.path) for nb in p.nested(ob_.path) for _bb, t in nb.calls()):
+                chain.append((outer, hf.path, hf))
+    chk.ob("R3 uv argument", "R3|uv-chain", len(chain) >= 4, AUTH, "%d links between the ceremony's extension step and the HMAC function (make/get_extensions → make/get_prf → HMAC)" % len(chain))
+    for outer, inner, ib in chain:
         b = p.method(AUTH, outer)
         if not chk.require("R3 uv argument", "R3|%s|body" % outer, b, AUTH, "%s not found" % outer):
             continue
+        ro_i = param_roles(ib, uv="bool") if ib is not None else {"uv": None}
+        ro_o = param_roles(b, uv="bool")
+        if not chk.require("R3 uv argument", "R3|%s->%s|roles" % (outer, inner.rsplit("::", 1)[-1]), ro_i["uv"] is not None and ro_o["uv"] is not None, where(b), "the uv flag parameter is not identified by type"):
+            continue
+        ai, pi = ro_i["uv"] - 1, ro_o["uv"]
         chk.touched(b)
         found = False
         val = None
@@ -253,7 +286,7 @@ def run(chk):
     ss = fn(p, "hmac_secret::select_salts")
     if chk.require("R4 select_salts", "R4|select_salts", ss, "passkey_authenticator", "select_salts not found"):
         chk.touched(ss)
-        rows = normal.rows(S, ss, N, expand=False)
+        rows = normal.rows(S, ss, N, expand=False, deep=True)
         # the table in normal form: which stored entry feeds the salts, and under which presence tests
         is_ebc_t = lambda y: y == ("field", ("param", 2), "eval_by_credential")
         # the matching entry: found by Iterator::find over the per-credential map, or yielded by next() of a loop over it
@@ -374,6 +407,10 @@ def run(chk):
                         curb = eb
                     given = flow.simplify_term(cur)
         ok = stored is not None and given is not None and has(given, lambda x: x == ("field", stored, "hmac_secret")) or (stored is not None and given is not None and has(given, lambda x: isinstance(x, tuple) and len(x) == 3 and x[0] == "field" and x[2] == "hmac_secret" and flow.strip_sites(x[1]) == flow.strip_sites(stored)))
+        if not ok and stored is not None and given is not None:
+            # the stored record built in place: its hmac_secret member is the very value (same evaluation site) handed to make_prf
+            hs = flow.simplify_term(("field", stored, "hmac_secret"))
+            ok = hs != ("field", stored, "hmac_secret") and isinstance(hs, tuple) and hs[:1] == ("call",) and has(given, lambda x: x == hs)
         chk.ob("R5 enabled", "R5|make_extensions|same-secrets-stored-and-reported", bool(ok), where(me), "stored CredentialExtensions = %s ; make_prf receives %s" % (flow.term_str(stored)[:100] if stored else "?", flow.term_str(given)[:140] if given else "?"))
     mh = p.method(AUTH, "make_hmac_secret")
     if chk.require("R5 enabled", "R5|make_hmac_secret", mh, AUTH, "make_hmac_secret not found"):
